@@ -276,8 +276,148 @@ func (w *World) CallGraph() *callgraph.Graph {
 	// parameters can hold any implementation. (VTA has no flows into them
 	// without a main program and would resolve such invokes to nothing.)
 	g := cha.CallGraph(w.Prog)
+	w.refineTableCalls(g)
 	w.cg = g
 	return g
+}
+
+// refineTableCalls: CHA resolves a call through a function value to every
+// function of that signature. When the value is read from a package-level
+// table that only its initialiser writes (a slice/array of closures walked by
+// a loop), the possible callees are exactly the functions the initialiser
+// stored there; the other CHA edges of that site are removed.
+func (w *World) refineTableCalls(g *callgraph.Graph) {
+	for fn, node := range g.Nodes {
+		if fn == nil || !w.InRepo(fn) || fn.Blocks == nil {
+			continue
+		}
+		allowed := map[ssa.CallInstruction]map[*ssa.Function]bool{}
+		seen := map[ssa.CallInstruction]bool{}
+		for _, e := range node.Out {
+			if e.Site == nil || seen[e.Site] {
+				continue
+			}
+			seen[e.Site] = true
+			c := e.Site.Common()
+			if c.IsInvoke() || c.StaticCallee() != nil {
+				continue
+			}
+			if _, isB := c.Value.(*ssa.Builtin); isB {
+				continue
+			}
+			if tg := tableOrigin(c.Value, 0); tg != nil && w.readOnlyOutsideInit(tg) {
+				if fs := w.tableFuncs(tg); fs != nil {
+					allowed[e.Site] = fs
+				}
+			}
+		}
+		if len(allowed) == 0 {
+			continue
+		}
+		var keep []*callgraph.Edge
+		for _, e := range node.Out {
+			if fs, ok := allowed[e.Site]; ok && !fs[e.Callee.Func] {
+				var in []*callgraph.Edge
+				for _, x := range e.Callee.In {
+					if x != e {
+						in = append(in, x)
+					}
+				}
+				e.Callee.In = in
+				continue
+			}
+			keep = append(keep, e)
+		}
+		node.Out = keep
+	}
+}
+
+// tableOrigin: v is loaded (possibly through a local copy of an element) from
+// memory rooted at one package-level variable.
+func tableOrigin(v ssa.Value, depth int) *ssa.Global {
+	if depth > 8 {
+		return nil
+	}
+	var addr func(a ssa.Value, d int) *ssa.Global
+	addr = func(a ssa.Value, d int) *ssa.Global {
+		if d > 8 {
+			return nil
+		}
+		switch x := a.(type) {
+		case *ssa.Global:
+			return x
+		case *ssa.FieldAddr:
+			return addr(x.X, d+1)
+		case *ssa.IndexAddr:
+			return addr(x.X, d+1)
+		case *ssa.Alloc:
+			var g *ssa.Global
+			for _, ref := range *x.Referrers() {
+				if st, ok := ref.(*ssa.Store); ok && st.Addr == ssa.Value(x) {
+					o := tableOrigin(st.Val, d+1)
+					if o == nil || (g != nil && o != g) {
+						return nil
+					}
+					g = o
+				}
+			}
+			return g
+		}
+		return nil
+	}
+	switch x := v.(type) {
+	case *ssa.UnOp:
+		if x.Op == token.MUL {
+			return addr(x.X, depth+1)
+		}
+	case *ssa.Field:
+		return tableOrigin(x.X, depth+1)
+	case *ssa.Index:
+		return tableOrigin(x.X, depth+1)
+	}
+	return nil
+}
+
+// tableFuncs: the functions the package initialiser stores into memory rooted
+// at g; nil when something other than a function constant is stored into a
+// function-typed slot of g.
+func (w *World) tableFuncs(g *ssa.Global) map[*ssa.Function]bool {
+	if g.Pkg == nil {
+		return nil
+	}
+	init := g.Pkg.Func("init")
+	if init == nil {
+		return nil
+	}
+	out := map[*ssa.Function]bool{}
+	for _, b := range init.Blocks {
+		for _, in := range b.Instrs {
+			st, ok := in.(*ssa.Store)
+			if !ok {
+				continue
+			}
+			if _, isSig := st.Val.Type().Underlying().(*types.Signature); !isSig {
+				continue
+			}
+			root, _, ok := constAddrChain(st.Addr)
+			if !ok {
+				// a function stored through a non-constant address: cannot attribute
+				return nil
+			}
+			if root != ssa.Value(g) {
+				continue
+			}
+			f, isFn := st.Val.(*ssa.Function)
+			if !isFn {
+				return nil
+			}
+			out[f] = true
+		}
+	}
+	if len(out) == 0 {
+		return nil
+	}
+	return out
 }
 
 // VTAGraph: the more precise whole-program graph, used only to bound which
